@@ -126,7 +126,7 @@ func genValues(c *mc.Ctx, thorough bool) (vals []*rm.Value, class string) {
 	}
 }
 
-var modeNames = []string{"text", "pretty", "binary"}
+var modeNames = []string{"text", "pretty", "binary", "text-quiet"}
 
 func newWriter(mode int, buf *bytes.Buffer) ion.Writer {
 	switch mode {
@@ -134,6 +134,8 @@ func newWriter(mode int, buf *bytes.Buffer) ion.Writer {
 		return ion.NewTextWriter(buf)
 	case 1:
 		return ion.NewTextWriterOpts(buf, ion.TextWriterPretty)
+	case 3:
+		return ion.NewTextWriterOpts(buf, ion.TextWriterQuietFinish)
 	}
 	return ion.NewBinaryWriter(buf)
 }
@@ -145,6 +147,11 @@ func writeWith(c *mc.Ctx, mode int, vals []*rm.Value) (out []byte, calls int, fa
 		SymViaStr: c.Dev("sym.via", 2) == 1,
 		AnnotBulk: c.Dev("annot.bulk", 2) == 1,
 	}
+	if len(vals) > 1 {
+		o.FinishEach = c.Dev("finish.each", 2) == 1
+	}
+	// tokens that carry, besides their text, an ID from some other table (system range, local range)
+	o.ForeignSID = []int64{0, 4, 10}[c.Dev("token.sid", 3)]
 	o.OnCall = func(name string, e error) {
 		calls++
 		if e != nil && failedCall == "" {
